@@ -250,8 +250,8 @@ class ArrayUnionMatcher(CombinationMatcher):
         return max(self._a)
 
     def skip_to(self, docnum):
-        if docnum < self._offset:
-            # We've already passed it
+        if docnum <= self._docnum:
+            # We're already at or past it (never move backwards)
             return
         elif docnum < self._limit:
             # It's in the current part
